@@ -142,3 +142,32 @@ def const_true(t):
 
 def const_false(t):
     return isinstance(t, tuple) and t[0] == "const" and t[3] == 0 and t[1] == "bool"
+
+
+def node_field_writes(prog):
+    """Every MIR store into a field of SolutionNode anywhere in the lib:
+    (body, bb, stmt-or-terminator, field, rvalue-or-None)."""
+    out = []
+    for b in prog.lib_bodies():
+        for i, blk in enumerate(b.blocks):
+            if blk["cleanup"]:
+                continue
+            for s in blk["stmts"]:
+                if s["k"] != "assign":
+                    continue
+                pr = s["place"]["p"]
+                if pr and isinstance(pr[-1], dict) and pr[-1].get("of") == NODE_TY and "field" in pr[-1]:
+                    out.append((b, i, s, pr[-1]["field"], s["rv"]))
+                if s["rv"]["k"] in ("ref", "rawptr") and (s["rv"].get("bk") == "mut" or "Mut" in s["rv"].get("pk", "")):
+                    pr2 = s["rv"]["place"]["p"]
+                    if pr2 and isinstance(pr2[-1], dict) and pr2[-1].get("of") == NODE_TY and "field" in pr2[-1]:
+                        out.append((b, i, s, pr2[-1]["field"], {"k": "mutborrow"}))
+                if s["rv"]["k"] == "aggregate" and s["rv"].get("adt") == NODE_TY:
+                    for f, o in zip(s["rv"]["fields"], s["rv"]["ops"]):
+                        out.append((b, i, s, f, {"k": "use", "op": o, "ctor": True}))
+            t = blk["term"]
+            if t["k"] == "call":
+                pr = t["dest"]["p"]
+                if pr and isinstance(pr[-1], dict) and pr[-1].get("of") == NODE_TY and "field" in pr[-1]:
+                    out.append((b, i, t, pr[-1]["field"], None))
+    return out
